@@ -46,6 +46,7 @@ func Oracle(nsrc int, steps []Step) (string, int, string) {
 	}
 	prev := map[int]RecV{}
 	prevKnown := true
+	prevKind := ""
 
 	for si, st := range steps {
 		if st.Panic != "" {
@@ -203,13 +204,17 @@ func Oracle(nsrc int, steps []Step) (string, int, string) {
 				break
 			}
 			// the request returned nil: "a refresh that completes without error"
+			pre := "wait-"
+			if prevKind == "get" {
+				pre = "wait-during-miss-" // the writer was busy with a lookup miss, not a refresh
+			}
 			for pid, t := range reported {
 				r, ok := list[pid]
 				if !ok {
-					return "wait-missing-provider", si, fmt.Sprintf("a Refresh request that found the writer busy returned nil, a responding source reports provider %d, but List does not have it", pid)
+					return pre + "missing-provider", si, fmt.Sprintf("a Refresh request that found the writer busy returned nil, a responding source reports provider %d, but List does not have it", pid)
 				}
 				if eff(r) < t {
-					return "wait-stale-record", si, fmt.Sprintf("a Refresh request that found the writer busy returned nil, a responding source reports provider %d with time %d, but List has the record of time %d", pid, t, eff(r))
+					return pre + "stale-record", si, fmt.Sprintf("a Refresh request that found the writer busy returned nil, a responding source reports provider %d with time %d, but List has the record of time %d", pid, t, eff(r))
 				}
 			}
 
@@ -304,6 +309,7 @@ func Oracle(nsrc int, steps []Step) (string, int, string) {
 		} else {
 			prevKnown = false
 		}
+		prevKind = st.Kind
 	}
 	return "", -1, ""
 }
